@@ -238,7 +238,9 @@ class Harness11(engine_impl.Harness):
             self.notes.append("c11-error:" + repr(e))
 
 
-engine_impl.Harness = Harness11  # one property per process (check.py); forked workers inherit it
+def _install():
+    """use the attributing harness (only once this module actually runs scenarios; forked workers inherit it)"""
+    engine_impl.Harness = Harness11
 
 
 def _mids(st):
@@ -315,6 +317,9 @@ def release_ticks(sc, o, waits):
     return rel
 
 
+UNRESUMABLE = "unresumable"
+
+
 def expected_cache(sc, o, upto, stmts):
     """C04's rule, replayed over the executed messages before index `upto` (only used when no exception was ever
     delivered to a generator, so every command succeeded): the message indices that a rewind would replay."""
@@ -361,7 +366,7 @@ def expected_cache(sc, o, upto, stmts):
             if v != rew and cache is not None and F["toggle"]:
                 cache = []
             rew = v
-    return cache
+    return UNRESUMABLE if cache is None else cache
 
 
 def oracle(sc, o):
@@ -406,7 +411,8 @@ def oracle(sc, o):
     noreplay = any("noreplay" in (d.get("modes", {}).get("pause", [])) for d in sc.get("devices", {}).values())
     for si, S in enumerate(starts):
         i, t0, f = S["i"], S["tick"], S["fut"]
-        t_next = tm[i + 1] if i + 1 < len(msgs) else INF
+        # `_start_suspender` runs synchronously: its effects lie between its msg_hook call and _run's next suspension point
+        t_next = min([tm[i + 1] if i + 1 < len(msgs) else INF] + [t for t in T["arrivals"] if t > t0][:1])
         just = S["just"] if S["just"] is not None else "suspended"
         # ---- (b) every device that was set is told to stop, right at _start_suspender
         moved = sorted({e[0] for e, t in zip(o["ledger"], T["ledger"]) if e[1] == "set" and t < t0})
@@ -483,13 +489,22 @@ def oracle(sc, o):
             cache = None
             if not [t for t in throws if t < min(t_seq_end, cut)] and not noreplay:
                 cache = expected_cache(sc, o, i, stmts)
+            if cache == UNRESUMABLE:
+                # cross-check with C10: after clear_checkpoint a suspension request must end in FailedPause, not in a helper
+                bad.append(("suspension-started-in-unresumable-section", f"suspension #{si} at message #{i} started although the plan had cleared its checkpoint"))
+                cache = None
             if cache is not None:
                 want = [msgs[k][3] for k in cache]
                 # a suspension that started before an earlier helper was through (no new plan message since) is followed
                 # by the rest of that helper (its own replay): only the beginning of `rep` is this helper's replay
-                nested_in = any(P0["i"] < i and not any(msgs[k][3] in plan_mids and first_seen.get(msgs[k][3]) == k for k in range(P0["i"], i)) for P0 in starts)
-                if nested_in and complete:
-                    good = rep[: len(want)] == want
+                rewinds = [P0["i"] for P0 in starts if P0["i"] < i]
+                for rr, rt in zip(o["returns"], rets):
+                    if rr[2] == "paused" and rt < t0:  # a resume() followed: its replay list sits below this helper
+                        rewinds.append(next((k for k in range(len(msgs)) if tm[k] > rt), i))
+                nested_in = any(not any(msgs[k][3] in plan_mids and first_seen.get(msgs[k][3]) == k for k in range(r0, i)) for r0 in rewinds)
+                if nested_in:
+                    k0 = min(len(rep), len(want))
+                    good = rep[:k0] == want[:k0] and (len(rep) >= len(want) or not complete)
                 elif complete:
                     good = rep == want
                 else:
@@ -605,6 +620,7 @@ def _probe(sc):
 
 
 def run_probe(sc):
+    _install()
     return engine_impl.run_scenario(sc)
 
 
@@ -752,7 +768,7 @@ def sweep(rng):
 
 def _extras(ctx):
     out = [minimal_f5()]
-    for _ in range(ctx.budget(1, 12)):
+    for _ in range(ctx.budget(1, 10)):
         out += sweep(ctx.rng)
     return out
 
@@ -779,6 +795,7 @@ class _Gen:
 
 
 def run(ctx, model=True):
+    _install()
     extra = _extras(ctx)
     modes = {}
 
@@ -804,4 +821,5 @@ def run_impl_only(ctx):
 
 
 def replay(ctx, data):
+    _install()
     return E.replay_property(ctx, data, oracle)
